@@ -218,10 +218,7 @@ func C13(p *core.Program, r *core.Report) {
 				for _, in2 := range c.Block().Instrs {
 					if st, ok := in2.(*ssa.Store); ok && core.IsField(st.Addr, routingPkg, "sprayMetaData", "sent") && st.Val == ssa.Value(recCall) {
 						okS = true
-						okW, _ := core.MustPassAfter(st, func(i ssa.Instruction) bool {
-							mu, ok := i.(*ssa.MapUpdate)
-							return ok && pathEndsWith(mu.Map, "bundleData")
-						}, core.IsReturn)
+						okW, _ := core.MustPassAfter(st, isBundleDataWrite, core.IsReturn)
 						r.Check(okW, base+"persisted", "the updated metadata is written back to bundleData on every path", p.Pos(st.Pos()), "", "a return is reachable without the write-back")
 					}
 				}
@@ -300,10 +297,7 @@ func C13(p *core.Program, r *core.Report) {
 			okS := false
 			core.EachInstr(fn, func(in ssa.Instruction) {
 				if st, ok := in.(*ssa.Store); ok && core.IsField(st.Addr, routingPkg, "sprayMetaData", "sent") && core.DependsOn(st.Val, dep) {
-					if okW, _ := core.MustPassAfter(st, func(i ssa.Instruction) bool {
-						mu, ok := i.(*ssa.MapUpdate)
-						return ok && pathEndsWith(mu.Map, "bundleData")
-					}, core.IsReturn); okW {
+					if okW, _ := core.MustPassAfter(st, isBundleDataWrite, core.IsReturn); okW {
 						okS = true
 					}
 				}
@@ -572,3 +566,32 @@ func removalOfFailedPeer(rf *ssa.Function) *ssa.Call {
 }
 
 var _ = fmt.Sprintf
+
+// isBundleDataWrite: the instruction updates the spray bundleData map, directly
+// or by calling a small helper of the repository that does (an extracted
+// `setMetadata`).
+func isBundleDataWrite(i ssa.Instruction) bool {
+	if mu, ok := i.(*ssa.MapUpdate); ok && pathEndsWith(mu.Map, "bundleData") {
+		return true
+	}
+	c, ok := i.(ssa.CallInstruction)
+	if !ok {
+		return false
+	}
+	f := c.Common().StaticCallee()
+	if f == nil || !core.IsRepo(f) || f.Blocks == nil || len(f.Blocks) > 8 {
+		return false
+	}
+	found := false
+	core.EachInstr(f, func(in ssa.Instruction) {
+		if mu, ok := in.(*ssa.MapUpdate); ok && pathEndsWith(mu.Map, "bundleData") {
+			// what is stored is one of the helper's parameters
+			for _, par := range f.Params {
+				if core.DependsOn(mu.Value, func(v ssa.Value) bool { return v == ssa.Value(par) }) {
+					found = true
+				}
+			}
+		}
+	})
+	return found
+}
